@@ -423,11 +423,18 @@ def construct(c):
 
 
 def obj_canon(d) -> list:
+    """canonical form of a constructed dependency; an implementation that ACCEPTS malformed
+    arguments may hold non-dict items: they are canonicalised too (never a harness crash)"""
+    def items(xs):
+        try:
+            xs = list(xs)
+        except TypeError:
+            return ["not-iterable", type(xs).__name__]
+        return [keys_sx(list(x)) if isinstance(x, dict) else ["non-dict", type(x).__name__] for x in xs]
+    src = d.source
     return [S(d.name), list(d.version.release),
-            [] if d.source is None else [keys_sx(list(d.source))],
-            [keys_sx(list(x)) for x in d.script],
-            [keys_sx(list(x)) for x in d.stylesheet],
-            [keys_sx(list(x)) for x in d.meta]]
+            [] if src is None else [keys_sx(list(src)) if isinstance(src, dict) else ["non-dict", type(src).__name__]],
+            items(d.script), items(d.stylesheet), items(d.meta)]
 
 
 def spec_item_ok(it, req) -> bool:
